@@ -57,3 +57,17 @@ func Expired(point string) bool {
 	}
 	return false
 }
+
+// PreferDoneFn is set by the harness.
+var PreferDoneFn func(ctx context.Context) bool
+
+// PreferDone lets the simulated scheduler resolve a select in which both
+// ctx.Done() and another case are ready (the runtime picks at random, which
+// a deterministic simulation cannot replay): if it returns true the caller
+// takes the ctx.Done() branch.
+func PreferDone(ctx context.Context) bool {
+	if f := PreferDoneFn; f != nil {
+		return f(ctx)
+	}
+	return false
+}
